@@ -772,9 +772,6 @@ def classify(case, obs):
         return None
     if case['kind'] == 'scale' and any(h[0] is None for h in case['hw'][:-1]):
         return 'unused-outputs-collapse'
-    if _has(tree, lambda x: x['t'] == 'hold' and any(v['k'] == 'aff' and all(F(c) == 0 for c in v['coefs'].values())
-                                                     for v in x['v'].values())):
-        return 'zero-factor-aliases-plain'
     if obs.get('err') == 'EAssert' and _same_key_two_depths(tree):
         return 'dep-key-shared-across-depths'
     if _has(tree, lambda x: x['t'] == 'remap' and _has(x['body'], lambda y: y['t'] == 'rep' and y['n'] > 0)):
